@@ -48,7 +48,7 @@ Inductive ev :=
 
 Definition recv_event_ok (o : op) : bool :=
   match o with
-  | OSnap | ORestart | OLocal _ | OSnapExpire _ => true
+  | OSnap | OSnapLate _ | ORestart | OLocal _ | OSnapExpire _ => true
   | _ => false
   end.
 
